@@ -361,7 +361,7 @@ func decoders(c *simkit.Choices, x *simkit.Ctx) *simkit.Violation {
 	sc.History = []string{hex.EncodeToString(doc.Bytes)}
 	useReader := c.Bool()
 	if useReader {
-		sc.BufSize = []int{1, 2, 3, 7, 16, 64, 4096}[c.N(7)]
+		sc.BufSize = common.DrawBufSize(c)
 		for i, n := 0, 1+c.N(3); i < n; i++ {
 			sc.Reads = append(sc.Reads, 1+c.N(12))
 		}
